@@ -514,6 +514,19 @@ def zero_columns(rows, bases):
     return rows
 
 
+# tomogram / object numbers whose decimal digit strings collide when concatenated: (1, 12) ~ (11, 2), (2, 13) ~ (21, 3),
+# (1, 11) ~ (11, 1) - operations that group by the PAIR (tomogram, object) must keep such groups apart
+DIGIT_TOMOS = [1, 11, 2, 21]
+DIGIT_OBJS = [12, 2, 13, 3, 11, 1]
+
+
+def digit_collisions(rows):
+    for r in rows:
+        r[1] = DIGIT_TOMOS[r[1] % 4]
+        r[2] = DIGIT_OBJS[r[2] % 6]
+    return rows
+
+
 def pick_bases(rng):
     """Offsets of the sid / tomo / obj / cls values of a table pair; "zero" = the column is all 0 in both tables."""
     if rng.random() < 0.4:
@@ -538,6 +551,8 @@ def write_inits(ctx, name, sizes):
             a = gen_table(rng, n, 0, bases=bases)
             nb = rng.choice([0, 1, max(1, n // 2), n]) if n else rng.randint(0, 3)
             b = gen_table(rng, min(nb, 200), 500, like=a or None, bases=bases)
+            if rng.random() < 0.2:
+                a, b = digit_collisions(a), digit_collisions(b)
             fh.write(json.dumps({"a": a, "b": b}) + "\n")
     return path
 
@@ -568,6 +583,8 @@ def gen_overlap_pair(rng):
         obj = cand_o[i % len(cand_o)] if rng.random() < 0.9 else rng.choice(cand_o)
         b.append([bases[0] + sid, bases[1] + rng.randint(1, ntomo + 1), bases[2] + obj, rng.randint(1, NSCORE_SIM),
                   bases[3] + rng.randint(1, ncls + 1), 500 + i + 1])
+    if rng.random() < 0.35:
+        return {"a": digit_collisions(a), "b": digit_collisions(b)}
     return {"a": zero_columns(a, zb), "b": zero_columns(b, zb)}
 
 
@@ -591,7 +608,7 @@ def medium_transitions(ctx, judge, npairs, budget):
     if not any(k.startswith("intersect") for k in by_kind):
         raise core.MachineryError("coverage hole: no intersection among the medium-table transitions")
     share = max(1, budget // len(by_kind))
-    chosen = [t for k in sorted(by_kind) for t in by_kind[k][:(4 * share if k.startswith(("intersect", "merge")) else share)]]
+    chosen = [t for k in sorted(by_kind) for t in by_kind[k][:(4 * share if k.startswith(("intersect", "merge", "renumber_objects", "split")) else share)]]
     ctx.extra["medium_transitions_emitted"] = len(trs)
     ctx.extra["medium_transitions_replayed"] = len(chosen)
     for i, t in enumerate(chosen):
